@@ -9,6 +9,7 @@ import AnyTLS.Drv.Open
 import AnyTLS.Drv.Pool
 import AnyTLS.Drv.Hb
 import AnyTLS.Drv.Socks
+import AnyTLS.Drv.Cert
 
 open AnyTLS.Drv
 
@@ -19,6 +20,7 @@ structure DrvState where
   proc : Option MProc := none
   opn : Option MOpen := none
   pool : Option MPool := none
+  cert : Option MCert := none
   hxV : Option MNode := none
   hxW : Option MNode := none
 
@@ -129,6 +131,7 @@ def dispatch (st : DrvState) (line : String) : DrvState × String :=
   | "hb" :: rest => (st, hbOp rest)
   | "socks" :: rest => (st, socksOp rest)
   | "hx" :: rest => hxLine st rest
+  | "cert" :: rest => let (m, o) := certOp st.cert rest; ({ st with cert := m }, o)
   | "e2e" :: rest => (st, e2eLine rest)
   | "dest" :: rest => (st, destOp rest)
   | "dns" :: rest => let (c, o) := dnsOp st.dns rest; ({ st with dns := c }, o)
